@@ -52,13 +52,16 @@ func createSegment(name string, opt Options) (err error) {
 		}
 	}()
 	size := int64(opt.SegmentSize)
+	verifPoint("seg.create.opened", name)
 	if err = f.Truncate(size); err != nil {
 		return
 	}
+	verifPoint("seg.create.truncated", name)
 	if _, err = f.WriteAt(make([]byte, 16), size-16); err != nil {
 		return
 	}
 	err = f.Sync()
+	verifPoint("seg.create.synced", name)
 	return
 }
 
